@@ -284,6 +284,10 @@ pub trait Scenario: Sync {
     fn kinds(&self) -> &'static [&'static str];
     /// a run is non-trivial when it has >= 2 ops of which at least one is of such a kind
     fn nontrivial_kind(&self, k: u8) -> bool;
+    /// the stated non-triviality rule (default: >= 2 ops, one of a non-trivial kind)
+    fn nontrivial(&self, t: &Trace) -> bool {
+        t.ops.len() >= 2 && t.ops.iter().any(|o| self.nontrivial_kind(o.k))
+    }
     /// number of stratified (enumerated) runs at the beginning of the index space
     fn stratified(&self) -> u64 {
         0
